@@ -260,11 +260,13 @@ def _factory_shape(fn: ast.FunctionDef) -> dict:
     dstar = wa.kwarg.arg if wa.kwarg else None
     _need((star is None) == (dstar is None), f"factory {fn.name}: wrapper must take both *args and **kwargs or none", w)
 
+    fwd = []          # one (passes self, passes the positional arguments, passes the keyword arguments) per call
+
     def is_forward(call: ast.Call) -> bool:
-        """original(self, <all wrapper parameters forwarded unchanged, in order>)"""
+        """a call of the original; HOW it forwards the wrapper's own arguments is recorded in `fwd` and decided
+        by the theorem C20_forwarding_complete (a wrapper that drops **kwargs is not rejected here)"""
         if not (isinstance(call.func, ast.Name) and call.func.id == orig):
             return False
-        want = [("n", p) for p in wpos] + ([("s", star)] if star else [])
         got = []
         for a in call.args:
             if isinstance(a, ast.Name):
@@ -272,11 +274,15 @@ def _factory_shape(fn: ast.FunctionDef) -> dict:
             elif isinstance(a, ast.Starred) and isinstance(a.value, ast.Name):
                 got.append(("s", a.value.id))
             else:
-                return False
-        kws = [(k.arg, k.value.id if isinstance(k.value, ast.Name) else None) for k in call.keywords]
-        return got == want and kws == ([(None, dstar)] if dstar else [])
+                got.append(("?", ast.unparse(a)))
+        kws = [(k.arg, k.value.id if isinstance(k.value, ast.Name) else "?") for k in call.keywords]
+        want_pos = [("n", p) for p in wpos[1:]] + ([("s", star)] if star else [])
+        fwd.append((bool(got) and got[0] == ("n", "self"), got[1:] == want_pos,
+                    kws == ([(None, dstar)] if dstar else [])))
+        return True
 
     steps = []
+    detail_locals = set()
     locals_from_getattr = {}
     op_src = None
     for st in w.body:
@@ -287,6 +293,13 @@ def _factory_shape(fn: ast.FunctionDef) -> dict:
                 and isinstance(st.value.args[0], ast.Name) and st.value.args[0].id == "self" \
                 and isinstance(st.value.args[1], ast.Name) and st.value.args[1].id in pos + kwonly:
             locals_from_getattr[st.targets[0].id] = st.value.args[1].id
+            steps.append(("WRead",))
+            continue
+        # x = <factory parameter>(self, *args, **kwargs)      (details computed beforehand; pure, modelled-not-verified)
+        if isinstance(st, ast.Assign) and len(st.targets) == 1 and isinstance(st.targets[0], ast.Name) \
+                and isinstance(st.value, ast.Call) and isinstance(st.value.func, ast.Name) \
+                and st.value.func.id in pos + kwonly and st.value.func.id != orig:
+            detail_locals.add(st.targets[0].id)
             steps.append(("WRead",))
             continue
         # journal.record(<self|x>, <operation>, details=<expr>)
@@ -313,7 +326,9 @@ def _factory_shape(fn: ast.FunctionDef) -> dict:
             # details: details_func(self[, *args, **kwargs]) or an f-string over plain names.  Its purity
             # (repr of IR objects) is modelled-not-verified; the journaled-vs-plain comparison covers it.
             d = c.keywords[0].value
-            if isinstance(d, ast.Call):
+            if isinstance(d, ast.Name) and d.id in detail_locals:
+                pass
+            elif isinstance(d, ast.Call):
                 _need(isinstance(d.func, ast.Name) and d.func.id in pos + kwonly, f"factory {fn.name}: details call", st)
                 for a in d.args:
                     _need(isinstance(a, ast.Name) or (isinstance(a, ast.Starred) and isinstance(a.value, ast.Name)),
@@ -338,7 +353,7 @@ def _factory_shape(fn: ast.FunctionDef) -> dict:
         raise Reject(f"factory {fn.name}: unsupported wrapper statement at line {st.lineno}: "
                      f"{ast.unparse(st)[:80]}")
     _need(op_src is not None, f"factory {fn.name}: wrapper never records", fn)
-    return {"name": fn.name, "pos": pos, "kwonly": kwonly, "steps": steps, "op": op_src,
+    return {"name": fn.name, "pos": pos, "kwonly": kwonly, "steps": steps, "op": op_src, "fwd": fwd,
             "kw_defaults": {a.arg: d for a, d in zip(fn.args.kwonlyargs, fn.args.kw_defaults)}}
 
 
@@ -423,6 +438,93 @@ class Journal:
 '''
 
 
+def _jval(e, params):
+    """expression -> jval term, or None"""
+    if isinstance(e, ast.Name):
+        if e.id == "_current_journal":
+            return "VCur"
+        if e.id == "self":
+            return "VSelf"
+        if e.id in params:
+            return f"(VParam {_cs(e.id)})"
+        return f"(VLocal {_cs(e.id)})"
+    if isinstance(e, ast.Attribute) and isinstance(e.value, ast.Name) and e.value.id == "self":
+        return f"(VSelfField {_cs(e.attr)})"
+    if isinstance(e, ast.Call) and ast.unparse(e) == "_wrappers.wrap_ir_classes(self)":
+        return "VWrapClasses"
+    return None
+
+
+def _ekind(v: ast.expr) -> str:
+    """what a JournalEntry keyword argument keeps of `obj`"""
+    src = ast.unparse(v)
+    if src == "weakref.ref(obj) if obj is not None else None":
+        return "KWeakObj"
+    names = [n for n in ast.walk(v) if isinstance(n, ast.Name) and n.id == "obj"]
+    if not names:
+        # no mention of obj: parameters (operation, details) and the two helper calls
+        _need(isinstance(v, ast.Name) or src in ("time.time()", "_get_stack_trace()"),
+              f"JournalEntry argument {src!r} is not understood", v)
+        return "KScalar"
+    if src in ("obj.__class__", "obj.__class__.__name__", "id(obj)"):
+        return "KScalar"
+    return "KStrongObj"
+
+
+def _jstmt(st, params, where) -> str:
+    """one statement of a Journal method -> jstmt term (JOther for anything without a meaning in the model:
+    the equivalence theorems of C20/Journal.v then fail and name the statement)"""
+    src = " ".join(ast.unparse(st).split())
+    other = f"(JOther {_cs(src.replace(chr(34), chr(39))[:120])})"
+    if isinstance(st, ast.Global):
+        return "JGlobal" if st.names == ["_current_journal"] else other
+    if isinstance(st, (ast.Assign, ast.AnnAssign)):
+        tgt = st.targets[0] if isinstance(st, ast.Assign) and len(st.targets) == 1 else getattr(st, "target", None)
+        val = st.value
+        if tgt is None or val is None:
+            return other
+        if where == "__init__" and isinstance(tgt, ast.Attribute) and isinstance(tgt.value, ast.Name) \
+                and tgt.value.id == "self":
+            k = {"[]": "IEmptyList", "{}": "IEmptyDict", "None": "INone"}.get(ast.unparse(val))
+            return f"(JInitField {_cs(tgt.attr)} {k})" if k else other
+        if isinstance(tgt, ast.Name) and tgt.id == "_current_journal":
+            v = _jval(val, params)
+            return f"(JSetCur {v})" if v else other
+        if isinstance(tgt, ast.Attribute) and isinstance(tgt.value, ast.Name) and tgt.value.id == "self":
+            v = _jval(val, params)
+            return f"(JSetField {_cs(tgt.attr)} {v})" if v else other
+        if isinstance(tgt, ast.Name) and isinstance(val, ast.Call) and isinstance(val.func, ast.Name) \
+                and val.func.id == "JournalEntry" and not val.args and all(k.arg for k in val.keywords):
+            fields = clist(f"({_cs(k.arg)}, {_ekind(k.value)})" for k in val.keywords)
+            return f"(JNewEntry {_cs(tgt.id)} {fields})"
+        return other
+    if isinstance(st, ast.Expr) and isinstance(st.value, ast.Call):
+        c = st.value
+        if ast.unparse(c.func) == "_wrappers.restore_ir_classes" and len(c.args) == 1 and not c.keywords:
+            v = _jval(c.args[0], params)
+            return f"(JRestore {v})" if v else other
+        if isinstance(c.func, ast.Attribute) and c.func.attr == "append" and len(c.args) == 1 and not c.keywords \
+                and isinstance(c.func.value, ast.Attribute) and isinstance(c.func.value.value, ast.Name) \
+                and c.func.value.value.id == "self":
+            v = _jval(c.args[0], params)
+            return f"(JAppendField {_cs(c.func.value.attr)} {v})" if v else other
+        return other
+    if isinstance(st, ast.Return):
+        if st.value is None:
+            return other
+        v = _jval(st.value, params)
+        return f"(JReturn {v})" if v else other
+    if isinstance(st, ast.For) and not st.orelse and isinstance(st.target, ast.Name) and len(st.body) == 1 \
+            and isinstance(st.iter, ast.Attribute) and isinstance(st.iter.value, ast.Name) and st.iter.value.id == "self" \
+            and isinstance(st.body[0], ast.Expr) and isinstance(st.body[0].value, ast.Call):
+        c = st.body[0].value
+        if isinstance(c.func, ast.Name) and c.func.id == st.target.id and len(c.args) == 1 and not c.keywords:
+            v = _jval(c.args[0], params)
+            if v:
+                return f"(JForCall {_cs(st.iter.attr)} {v})"
+    return other
+
+
 def extract() -> dict:
     """Read the three key lists, the wrapper shapes and the pinned Journal methods from the source."""
     mod = T._src(WRAPPERS)
@@ -486,13 +588,21 @@ def extract() -> dict:
         else:
             restored.append((_slot_of_chain(ch, st), _orig_key(st.value)))
 
-    # ---- Journal.__enter__/__exit__/record/__init__ pinned
+    # ---- Journal.__enter__/__exit__/record/__init__ translated statement by statement (C20/Journal.v proves the
+    #      hand model's enter / exit_ / record equal to the interpretation of these lists)
     jm = T._src(JOURNALING)
-    pin = ast.parse(_PINNED_JOURNAL)
-    for name in ("__enter__", "__exit__", "record", "__init__"):
-        got = T.ast_digest(T.find_function(jm, f"Journal.{name}"))
-        want = T.ast_digest(T.find_function(pin, f"Journal.{name}"))
-        _need(got == want, f"Journal.{name} differs from the text the model of enter/exit/record transcribes")
+    jmethods = {}
+    for name, params in (("__enter__", ["self"]), ("__exit__", ["self", "exc_type", "exc_value", "exc_tb"]),
+                         ("record", ["self", "obj", "operation", "details"]), ("__init__", ["self"])):
+        fn = T.find_function(jm, f"Journal.{name}")
+        a = fn.args
+        _need([x.arg for x in a.args] == params and not a.vararg and not a.kwarg and not a.kwonlyargs
+              and not a.posonlyargs and not fn.decorator_list, f"Journal.{name}: parameters/decorators changed", fn)
+        jmethods[name] = [_jstmt(st, params, name) for st in _strip_doc(fn.body)]
+    # the stack trace helper must produce FrameSummary objects only (they hold no frame)
+    gst = _strip_doc(T.find_function(jm, "_get_stack_trace").body)
+    _need(len(gst) == 1 and ast.unparse(gst[0]) == "return traceback.extract_stack()[:-3]",
+          "_get_stack_trace is not `return traceback.extract_stack()[:-3]`")
     # JournalEntry.ref must be declared as a weak reference field and be the only object-valued field
     je = None
     for n in jm.body:
@@ -506,7 +616,8 @@ def extract() -> dict:
           f"JournalEntry fields changed: {fields}")
     digest = T.ast_digest(mod)
     return {"saved": saved, "patched": patched, "restored": restored,
-            "factories": {k: v["steps"] for k, v in facs.items()}, "digest": digest}
+            "factories": {k: v["steps"] for k, v in facs.items()}, "digest": digest, "journal": jmethods,
+            "forwarding": [(k, f) for k, v in sorted(facs.items()) for f in v["fwd"]]}
 
 
 def _cs(s: str) -> str:
@@ -534,11 +645,21 @@ def render_gen(x: dict) -> str:
            "(* wrapper factories: statements of the inner wrapper, in source order *)"]
     for name, steps in sorted(x["factories"].items()):
         out.append(f"Definition steps{name} : list wstep := {clist(_cstep(s) for s in steps)}.")
+    out += ["", "(* how each call of the original inside a wrapper forwards the wrapper's own arguments:",
+            "   (factory, (passes self first, passes the positional arguments / *args, passes **kwargs)) *)",
+            "Definition forwarding : list (string * (bool * bool * bool)) :=",
+            "  " + clist(f"({_cs(k)}, ({str(a).lower()}, {str(b).lower()}, {str(c).lower()}))" for k, (a, b, c) in x["forwarding"]) + "."]
     out += ["", "(* wrap_ir_classes: one patch per assignment, in source order *)",
             "Definition patched : list patch :=",
             "  [ " + ";\n    ".join(
                 f"mkPatch {_cs(p['slot'])} {_cs(p['key'])} {_cs(p['fac'])} steps{p['fac']} {_cs(p['op'])} "
                 + ("None" if p["tattr"] is None else f"(Some {_cs(p['tattr'])})") for p in x["patched"]) + " ].",
+            "",
+            "(* Journal.__enter__ / __exit__ / record / __init__ of _journaling.py, statement by statement *)",
+            "Definition j_enter : list jstmt :=\n  " + clist(x["journal"]["__enter__"]).replace("; ", ";\n    ") + ".",
+            "Definition j_exit : list jstmt :=\n  " + clist(x["journal"]["__exit__"]).replace("; ", ";\n    ") + ".",
+            "Definition j_record : list jstmt :=\n  " + clist(x["journal"]["record"]).replace("; (\"", "; (\"").replace("; (J", ";\n    (J") + ".",
+            "Definition j_init : list jstmt :=\n  " + clist(x["journal"]["__init__"]).replace("; ", ";\n    ") + ".",
             "",
             "(* restore_ir_classes: (class attribute written, dict key read), in source order *)",
             "Definition restored : list (string * string) :=",
